@@ -134,14 +134,21 @@ func inclRun(w *World) {
 			})
 		}
 		if t.Flag(1, 5) {
-			// a phase with two writers at once (upsert-style updates of the same few ids): which order they take effect in
+			// a phase with two writers at once (upserts, deletes and adds of the same few ids): which order they take effect in
 			// is then the store's business - afterwards the model is re-read from the store, the exact event table is no
 			// longer applied, and the folded filtered stream must still be List with the same predicate
 			exact = false
 			for k := 0; k < 2; k++ {
 				var cops []wop
 				for j, n := 0, 1+t.Choose(2); j < n; j++ {
-					cops = append(cops, wop{Kind: opUpdate, ID: ids[t.Choose(2)], Val: mm{V: vals[t.Choose(3)]}, CreateIfAbs: !t.Flag(1, 4)})
+					switch t.Choose(4) {
+					case 0: // (items also go away and come back while the other writer is at work)
+						cops = append(cops, wop{Kind: opDelete, ID: ids[t.Choose(2)], AllowMiss: true})
+					case 1:
+						cops = append(cops, wop{Kind: opAdd, ID: ids[t.Choose(2)], Val: mm{V: vals[t.Choose(3)]}})
+					default:
+						cops = append(cops, wop{Kind: opUpdate, ID: ids[t.Choose(2)], Val: mm{V: vals[t.Choose(3)]}, CreateIfAbs: !t.Flag(1, 4)})
+					}
 				}
 				cw := &writer{name: fmt.Sprintf("w%d%c", ph, 'a'+k), ops: cops}
 				w.Go(cw.name, false, func(t *Task) { cw.run(t, r) })
